@@ -246,16 +246,35 @@ func c05Defects(base *specs.Spec) []c05Defect {
 				}
 			})
 		}
-		mem("annotation-size", lvl, "-", ">256KiB", func(s *specs.Spec) {
-			big := strings.Repeat("x", 262145)
-			if lvl == "spec" {
-				s.Annotations["big"] = big
-			} else {
-				var i int
-				fmt.Sscanf(lvl, "dev%d", &i)
-				s.Devices[i].Annotations["big"] = big
-			}
-		})
+		// the limit is 256 KiB of key and value BYTES per annotation set: multi-byte
+		// characters count with all their bytes, and a set that is a single byte
+		// over is already too large
+		for _, v := range []struct{ variant, big string }{
+			{">256KiB", strings.Repeat("x", 262145)},
+			{"one-byte-over", "EXACT+1"},
+			{"2-byte-chars", strings.Repeat("\u00e9", 131100)},
+			{"3-byte-chars", strings.Repeat("\u20ac", 87400)},
+			{"4-byte-chars", strings.Repeat("\U0001F600", 65560)},
+		} {
+			v := v
+			mem("annotation-size", lvl, "-", v.variant, func(s *specs.Spec) {
+				m := s.Annotations
+				if lvl != "spec" {
+					var i int
+					fmt.Sscanf(lvl, "dev%d", &i)
+					m = s.Devices[i].Annotations
+				}
+				big := v.big
+				if big == "EXACT+1" {
+					used := len("big")
+					for k, val := range m {
+						used += len(k) + len(val)
+					}
+					big = strings.Repeat("x", 262144-used+1)
+				}
+				m["big"] = big
+			})
+		}
 	}
 	// --- document-only defects: unknown fields, missing members, structural type errors
 	devDoc := func(d *OMap, i int) *OMap { v, _ := d.Get("devices"); return v.([]any)[i].(*OMap) }
@@ -440,6 +459,22 @@ func checkC05(c *Ctx) {
 			s = c05Base(r)
 		} else {
 			s = genSpec(r, SpecGen{Marker: "m"})
+		}
+		if chance(r, 4) {
+			// boundary-valid: an annotation set of exactly 256 KiB, ASCII or multi-byte
+			s = c05Base(r)
+			m := s.Annotations
+			if chance(r, 50) {
+				m = s.Devices[r.Intn(len(s.Devices))].Annotations
+			}
+			used := len("big")
+			for k, val := range m {
+				used += len(k) + len(val)
+			}
+			unit := pickStr(r, "x", "\u00e9", "\u20ac", "\U0001F600")
+			n := (262144 - used) / len(unit)
+			m["big"] = strings.Repeat(unit, n) + strings.Repeat("x", 262144-used-n*len(unit))
+			c.Count("valid_with_annotation_set_of_exactly_256KiB", 1)
 		}
 		for _, enc := range []string{"json", "yaml"} {
 			bad := c05Try(dir, sanitize(cs.Name), specDoc(s), s, enc, true, "")
